@@ -49,6 +49,28 @@ theorem C10_exec_raw_never_fails (f : Pe.Fmt) (bytes : Bytes) (hsz : bytes.size 
     ∃ b s, Exec.run (ofRaw f bytes) pat cursor save = .ok (b, s) :=
   run_total (ofRaw_wf f bytes hsz) pat cursor save
 
+/-- `self.pc` stays within `pat.len() + 255`: none of the `usize` additions on it can overflow. -/
+theorem C10_exec_pc_bounded (S : ScanI) (pat : List Atom) (hok : pat.all Atom.ok = true)
+    (fuel : Nat) (st : St) (mask ext : Nat) (b : Bool) (st' : St)
+    (h : exec S pat fuel st mask ext = .ok (b, st')) (hpc : st.pc ≤ pat.length + 255) :
+    st'.pc ≤ pat.length + 255 :=
+  exec_pc_le S pat hok fuel st mask ext b st' h hpc
+
+/-- The model's unbounded integers are the machine's: started on a `u32` cursor and a save array of
+`u32`s, the execution hands back a save array of the same length whose slots are `u32`s (and the
+cursor is a `u32` throughout, `Lemmas/Exec.lean:exec_inRange`). -/
+theorem C10_exec_machine_range (v : Pe.View) (hsz : v.b.size < 4294967296) (pat : List Atom)
+    (cursor : Nat) (save s' : Array Nat) (b : Bool) (hc : cursor < 4294967296) (hs : SaveOK save)
+    (h : Exec.run (ofView v) pat cursor save = .ok (b, s')) :
+    SaveOK s' ∧ s'.size = save.size := by
+  unfold Exec.run at h
+  split at h <;> try (cases h; done)
+  next b' st hex =>
+    simp only [Out.ok.injEq, Prod.mk.injEq] at h
+    obtain ⟨_, rfl⟩ := h
+    have := exec_inRange (ofView_wf v hsz) pat save.size _ _ _ _ _ _ hex ⟨hc, hs, rfl⟩
+    exact ⟨this.2.1, this.2.2⟩
+
 /-! ## (b) the prefix lemma -/
 
 /-- If the pattern executes successfully at `c`, the image holds the literal prefix extracted by
@@ -113,6 +135,16 @@ theorem C10_scan_sound (v : Pe.View) (hsz : v.b.size < 4294967296) (pat : List A
     n (matchesInit lo hi) save rfl
   exact ⟨a, ha, h2, h3, h4⟩
 
+/-- `matches_code` / `finds_code` are `matches` / `finds` over `headers().code_range()` =
+`BaseOfCode .. BaseOfCode.wrapping_add(SizeOfCode)`, whose end is a `u32`: the theorems of this file
+apply to them as they are. -/
+theorem C10_matches_code_range (v : Pe.View) :
+    matchesCodeInit v = matchesInit (Pe.baseOfCode v.b) (wadd32 (Pe.baseOfCode v.b) (Pe.sizeOfCode v.b)) ∧
+    (matchesCodeInit v).stop < 4294967296 := by
+  refine ⟨rfl, ?_⟩
+  show wadd32 _ _ < _
+  unfold wadd32; omega
+
 /-! ## (e) completeness — mapped views, and file views with sections sorted by VirtualAddress
 
 The pattern must not read the save array (`noRead`: no `Check`, no `Pir` — atoms the parser never
@@ -125,6 +157,19 @@ theorem C10_exec_save_independent (v : Pe.View) (pat : List Atom) (hnr : pat.all
     (c : Nat) (s s' : Array Nat) (b : Bool) (h : Exec.run (ofView v) pat c s = .ok (b, s')) :
     execOK v pat c = b :=
   execOK_of_run hnr h
+
+/-- … and so are its captures: `next` runs the pattern on whatever earlier attempts left in the save
+array, yet (same length, pattern without `Check` / `Pir`) every slot handed back holds the value an
+execution on any other array `s2` writes there, or is a slot that execution does not write at all
+(`SaveRel`: slot by slot "equal in both, or untouched in both").  With `C10_next_sound` the reported
+captures are those of the execution at the reported position, not of stale attempts. -/
+theorem C10_captures_independent (v : Pe.View) (pat : List Atom) (hnr : pat.all noRead = true)
+    (c : Nat) (s1 s2 t1 : Array Nat) (hsz : s1.size = s2.size) (b : Bool)
+    (h : Exec.run (ofView v) pat c s1 = .ok (b, t1)) :
+    ∃ t2, Exec.run (ofView v) pat c s2 = .ok (b, t2) ∧ t1.size = t2.size ∧
+      ∀ i : Nat, t1[i]? = t2[i]? ∨ (t1[i]? = s1[i]? ∧ t2[i]? = s2[i]?) := by
+  obtain ⟨t2, h2, hrel⟩ := run_captures_indep (ofView v) pat hnr c s1 s2 t1 hsz b h
+  exact ⟨t2, h2, hrel.1, hrel.2⟩
 
 /-- Which of the three searches runs is decided by the length of the literal prefix alone; the
 theorems below hold for all of them. -/
@@ -204,6 +249,39 @@ theorem C10_finds_true (v : Pe.View) (pat : List Atom) (lo hi : Nat) (h : Hyp v 
   obtain ⟨hc, hE⟩ := (mem_specMatches v pat lo hi p).1 hp
   exact huniq p hc hE
 
+/-- **`finds` succeeds precisely when the scan reports exactly one match.**  For every image (any
+section table) and every pattern without `Check` / `Pir`: `finds(pat, lo..hi, save)` answers `true`
+exactly when the exhaustive loop `while matches.next(save) { record }` started from the same state
+(`scanAll`, with more calls allowed than the range has positions, so it ends by `next` returning
+`false`) records exactly one match; the save array `finds` hands back is then the one recorded with
+that match: it is what the execution of the pattern at the reported position `c` left, i.e. (by
+`C10_captures_independent`) it holds that match's captures on every slot its execution writes.
+The grey-zone behaviour of `C10_strategy1_reports_past_range_end` is consistent with this: `finds`
+is `false` when the scan reports two matches, whether or not both are candidates. -/
+theorem C10_finds_iff_one_reported (v : Pe.View) (hsz : v.b.size < 4294967296) (pat : List Atom)
+    (hok : pat.all Atom.ok = true) (hnr : pat.all noRead = true) (lo hi : Nat) (hhi : hi < 4294967296)
+    (save : Array Nat) (n : Nat) (hn : hi - lo < n + 2) :
+    ∃ b s a, finds v pat lo hi save = .ok (b, s) ∧
+      scanAll (next v pat) (n + 2) (matchesInit lo hi) save = .ok a ∧ a.exhausted = true ∧
+      (b = true ↔ a.hits.length = 1) ∧
+      (b = true → ∃ c, a.hits = [(c, s)] ∧ lo ≤ c ∧ c < hi ∧
+        ∃ s0, Exec.run (ofView v) pat c s0 = .ok (true, s)) := by
+  have hsound := fun (m : MSt) (save : Array Nat) (hm : m.stop = hi) =>
+    nextWith_sound (interp_total v hsz pat) v (setup pat) (setup_lt pat hok) m save (by omega)
+  obtain ⟨a, ha, _, h2, _, h4⟩ := scanAll_sound (ex := interp v pat) (nx := next v pat) hi hsound
+    (n + 2) (matchesInit lo hi) save rfl
+  obtain ⟨b, s, hf, hiff⟩ := findsWith_iff_scanAll (nx := next v pat) hi
+    (fun m save hm => by
+      obtain ⟨r, hr, hs⟩ := hsound m save hm
+      exact ⟨r, hr, by rw [hs.stop_eq, hm]⟩)
+    (fun m s1 s2 r1 r2 h1 h2 => nextWith_agree (interp_indep v hsz pat hnr) v (setup pat) m s1 s2 r1 r2 h1 h2)
+    (matchesInit lo hi) rfl save n
+  obtain ⟨h5, h6⟩ := hiff a ha
+  refine ⟨b, s, a, hf, ha, h4 hn, h5, fun hb => ?_⟩
+  obtain ⟨c, hc⟩ := h6 hb
+  obtain ⟨c1, c2, c3⟩ := h2 (c, s) (by rw [hc]; exact List.mem_cons_self ..)
+  exact ⟨c, hc, c1, c2, c3⟩
+
 /-- The statement "`finds` succeeds precisely when exactly one candidate position executes" is
 FALSE for the code as written: the first-byte scan (prefixes of 1–3 bytes) also reports matches
 whose prefix crosses the end of the range — positions that are not candidates — and such a match
@@ -241,6 +319,27 @@ theorem C10_finds_iff_unique_partial (v : Pe.View) (pat : List Atom) (lo hi : Na
   constructor
   · rintro ⟨c, hc⟩; exact ⟨c, fun p => by rw [mem_specMatches]; exact hc p⟩
   · rintro ⟨c, hc⟩; exact ⟨c, fun p => by rw [← mem_specMatches]; exact hc p⟩
+
+/-- Corollary with `C10_scan_exact` / `C10_finds_iff_unique_partial`: under `Hyp`, when no examined
+position outside the candidates executes successfully (no grey-zone match), "the scan reports
+exactly one match" is "exactly one candidate position executes": the exhausted scan then reports one
+match precisely when the reference list has exactly one element — and `finds` answers `true` in
+exactly that case. -/
+theorem C10_one_reported_iff_one_candidate (v : Pe.View) (pat : List Atom) (lo hi : Nat) (h : Hyp v pat lo hi)
+    (hG : ∀ c, IsScanPos v lo hi c → execOK v pat c = true → IsCand v (setup pat).length lo hi c)
+    (save : Array Nat) (n : Nat) (hn : hi - lo < n + 2) :
+    ∃ b s a, finds v pat lo hi save = .ok (b, s) ∧
+      scanAll (next v pat) (n + 2) (matchesInit lo hi) save = .ok a ∧ a.exhausted = true ∧
+      (b = true ↔ a.hits.length = 1) ∧
+      (a.hits.length = 1 ↔ ∃ c, ∀ p, p ∈ specMatches v pat lo hi ↔ p = c) := by
+  have h' := h
+  obtain ⟨hok, hnr, hsz, _, hhi, _⟩ := h'
+  obtain ⟨b, s, a, hf, ha, hex, h1, _⟩ := C10_finds_iff_one_reported v hsz pat hok hnr lo hi hhi save n hn
+  obtain ⟨b', s', hf', h2⟩ := C10_finds_iff_unique_partial v pat lo hi h hG save
+  rw [hf] at hf'
+  simp only [Out.ok.injEq, Prod.mk.injEq] at hf'
+  obtain ⟨rfl, rfl⟩ := hf'
+  exact ⟨b, s, a, hf, ha, hex, h1, by rw [← h1, h2]⟩
 
 /-! ## why the candidate positions stop a prefix length before the end
 
